@@ -12,19 +12,19 @@ for sd in sorted(glob.glob('/tmp/wt-C*/seed/*/')):
     vlog = f"/tmp/seedlogs/verify/{sid}.log"
     if not os.path.exists(vlog):
         continue
-    v = open(vlog).read()
+    v = open(vlog, errors='replace').read()
     pristine_ok = re.search(r'demo on pristine tree: test result: ok', v) is not None
-    with_fails = re.search(r'demo with the change:\s+test result: FAILED', v) is not None
+    with_fails = any('test result: FAILED' in l for l in v.splitlines() if l.startswith('demo with the change:'))
     suite = re.findall(r'test result: ok\. (\d+) passed; 0 failed', v.split('suite with the change:')[-1])
     suite_ok = suite == ['72', '2', '2']
     if not (pristine_ok and with_fails and suite_ok):
         print(sid, 'NOT CONFIRMED', pristine_ok, with_fails, suite)
         continue
     caught = {}
-    for mode in ('own', 'all'):
+    for mode in ('own', 'all', 'rerun'):
         lg = f"/tmp/seedlogs/{mode}/{sid}.log"
         if os.path.exists(lg):
-            t = open(lg).read()
+            t = open(lg, errors='replace').read()
             for line in t.splitlines():
                 mm = re.match(r'(C\d+) (CAUGHT|missed|error)(.*)', line)
                 if mm:
